@@ -115,6 +115,8 @@ def instr_text(i):
         return f'{p} {ty_text(i[1])}'
     if p in ('EMPTY_MAP', 'EMPTY_BIG_MAP'):
         return f'{p} {ty_text(i[1])} {ty_text(i[2])}'
+    if p == 'LAMBDA':
+        return f'LAMBDA {ty_text(i[1])} {ty_text(i[2])} {seq_text(i[3])}'
     if p in BLOCKS:
         return p + ''.join(' ' + seq_text(b) for b in i[1:])
     if p == 'DIPN':
@@ -140,6 +142,8 @@ def instr_tokens(i):
         return [p] + ty_tokens(i[1])
     if p in ('EMPTY_MAP', 'EMPTY_BIG_MAP'):
         return [p] + ty_tokens(i[1]) + ty_tokens(i[2])
+    if p == 'LAMBDA':
+        return [p] + ty_tokens(i[1]) + ty_tokens(i[2]) + seq_tokens(i[3])
     if p in BLOCKS:
         out = [p]
         for b in i[1:]:
@@ -178,6 +182,8 @@ def prims(seq):
 
 # ---------------------------------------------------------------------------------------------- types
 def has_ticket(t):
+    if t[0] == 'lambda':
+        return False          # code: duplicable whatever its argument types are
     return t[0] == 'ticket' or any(has_ticket(a) for a in t[1:] if isinstance(a, tuple))
 
 
@@ -234,7 +240,8 @@ FAIL = [('PUSH', ('string',), ('str', 'none')), ('FAILWITH',)]
 NOISE = [('TICKET',), ('READ_TICKET',), ('SPLIT_TICKET',), ('JOIN_TICKETS',), ('PAIR',), ('UNPAIR',), ('CAR',), ('CDR',), ('SOME',),
          ('CONS',), ('DUP',), ('DUP',), ('DUP',), ('SWAP',), ('DROP',), ('GET',), ('GET_AND_UPDATE',), ('UPDATE',), ('MEM',),
          ('LEFT', ('nat',)), ('RIGHT', ('ticket', ('string',))), ('IF_LEFT', [], []), ('IF_LEFT', [('DROP',)], [('DROP',)]),
-         ('EMPTY_SET', ('nat',)), ('EMPTY_SET', ('ticket', ('nat',))), ('PUSH', ('bool',), ('bool', True))]
+         ('EMPTY_SET', ('nat',)), ('EMPTY_SET', ('ticket', ('nat',))), ('PUSH', ('bool',), ('bool', True)), ('EXEC',), ('APPLY',),
+         ('LAMBDA', ('nat',), ('nat',), []), ('LAMBDA', ('ticket', ('string',)), ('ticket', ('string',)), [])]
 PUSHABLE = [('nat',), ('string',), ('unit',), ('bool',), ('pair', ('nat',), ('nat',)), ('option', ('nat',)), ('list', ('nat',)),
             ('list', ('pair', ('nat',), ('string',))), ('or', ('nat',), ('string',)), ('set', ('nat',)), ('set', ('string',)),
             ('map', ('nat',), ('string',)), ('map', ('string',), ('pair', ('nat',), ('nat',))), ('option', ('map', ('nat',), ('nat',))),
@@ -276,11 +283,15 @@ class Gen:
                                     ('ITER', [('DROP',)]), ('MAP', [('DROP',)]), ('DIP', [('DROP',)]), ('ITER', []), ('MAP', [])])
             return [c], self.after_noise(c, S)
         top = S[0] if S else None
-        cands = ['MINT'] * (5 if sum(1 for t in S if has_ticket(plain(t))) < 2 else 1)
+        cands = ['MINT'] * (5 if sum(1 for t in S if has_ticket(plain(t))) < 2 else 1) + (['LAM_MINT'] if rng.random() < 0.3 else [])
         if len(S) < 6:
             cands += ['PUSH']
         if S:
             cands += ['DROP', 'SOME', 'NILCONS', 'DUP', 'TO_MAP', 'TO_BIG_MAP', 'LEFT', 'RIGHT', 'WRAP']
+            if rng.random() < 0.3:
+                cands += ['LAM_EXEC', 'LAM_EXEC', 'LAM_APPLY']
+            if top[0] == 'lambda' and top[1] == ('nat',):
+                cands += ['EXEC_NAT'] * 4
             if top[0] == 'or':
                 cands += ['IF_LEFT'] * 4
             if top[0] == 'set':
@@ -315,6 +326,35 @@ class Gen:
                 v = ('map', t[1], t[2], []) if t[0] == 'map' else ('list', t[1], []) if t[0] == 'list' else ('none', t[1])
                 return [('PUSH', t, v)], None
             return [('PUSH', t, rand_plain_value(rng, t))], [t] + S          # (an unsorted / duplicated literal fails)
+        if c == 'LAM_MINT':
+            n = rng.choice([0, 1, 2, 5])
+            return [('LAMBDA', ('nat',), ('option', ('ticket', ('string',))), [('PUSH', ('string',), ('str', 'a')), ('TICKET',)]),
+                    ('PUSH', ('nat',), ('nat', n)), ('EXEC',)], [('option', ('ticket', ('string',), n if n else None))] + S
+        if c == 'LAM_EXEC':
+            T = plain(top)
+            bodies = [([], top), ([('SOME',)], ('option', top)), ([('DROP',), ('PUSH', ('nat',), ('nat', 1))], ('nat',)),
+                      ([('PUSH', ('nat',), ('nat', 1)), ('PAIR',)], ('pair', ('nat',), top))]
+            if top[0] == 'ticket':
+                bodies += [([('READ_TICKET',), ('DROP',)], top), ([('DUP',), ('PAIR',)], None), ([('READ_TICKET',), ('CDR',), ('CDR',)], None),
+                           ([('PUSH', ('pair', ('nat',), ('nat',)), ('pair', ('nat', 1), ('nat', 1))), ('SWAP',), ('SPLIT_TICKET',)],
+                            ('option', ('pair', ('ticket', top[1], None), ('ticket', top[1], None))))]
+            else:
+                bodies += [([('DUP',), ('PAIR',)], None if has_ticket(T) else ('pair', top, top))]
+            body, U = rng.choice(bodies)
+            Ut = plain(U) if U is not None else ('pair', T, T) if body[:1] == [('DUP',)] else ('nat',)
+            pre = [('LAMBDA', T, Ut, body)] + rng.choice([[], [], [('DUP',), ('DROP',)], [('DUP',), ('DIP', [('DROP',)])]])
+            return pre + [('SWAP',), ('EXEC',)], (None if U is None else [forget(U)] + S[1:])
+        if c == 'LAM_APPLY':
+            # the top value is captured into the code of a lambda: for good when it holds a ticket (the PUSH that re-creates it is refused)
+            T = plain(top)
+            ins = [('LAMBDA', ('pair', T, ('nat',)), T, [('CAR',)]), ('SWAP',), ('APPLY',)]
+            return ins, [('lambda', ('nat',), T)] + S[1:]
+        if c == 'EXEC_NAT':
+            k = rng.randrange(3)
+            pre = [[], [('DUP',), ('PUSH', ('nat',), ('nat', 2)), ('EXEC',), ('DROP',)], [('DUP',), ('DROP',)]][k]
+            if has_ticket(plain(top[2])):
+                return pre + [('PUSH', ('nat',), ('nat', 1)), ('EXEC',)], None           # refused: a ticket type is not pushable
+            return pre + [('PUSH', ('nat',), ('nat', 1)), ('EXEC',)], [top[2]] + S[1:]
         if c == 'LEFT':
             t = rng.choice(OTHER_SIDE)
             return [('LEFT', t)], [('or', top, t)] + S[1:]
@@ -556,6 +596,22 @@ CORPUS = [
     [(A, _mint(5) + [('PUSH', ('nat',), ('nat', 7)), ('PAIR',), ('SOME',), ('IF_NONE', list(FAIL), []), ('CDR',), ('READ_TICKET',)])],
     [(A, _mint(5) + _TO_MAP + [('PUSH', ('nat',), ('nat', 7)), ('PAIR',), ('DUP',)])],
     [(A, _mint(5) + _TO_MAP + [('PUSH', ('nat',), ('nat', 7)), ('PAIR',), ('CDR',), ('PUSH', ('nat',), ('nat', 1)), ('MEM',)])],
+    # lambdas: code is duplicable; a lambda can take / return / mint tickets but never copy one; APPLY on a ticket loses it for good
+    [(A, [('LAMBDA', _T, _T, []), ('DUP',)])],
+    [(A, _mint(5) + [('LAMBDA', _T, _T, []), ('SWAP',), ('EXEC',), ('READ_TICKET',)])],
+    [(A, _mint(5) + [('LAMBDA', _T, ('pair', _T, _T), [('DUP',), ('PAIR',)]), ('SWAP',), ('EXEC',)])],
+    [(A, _mint(5) + [('LAMBDA', _T, ('nat',), [('DROP',), ('PUSH', ('nat',), ('nat', 1))]), ('SWAP',), ('EXEC',)])],
+    [(A, _mint(5) + [('LAMBDA', _T, ('nat',), [('READ_TICKET',), ('CDR',), ('CDR',)]), ('SWAP',), ('EXEC',)])],
+    [(A, _mint(5) + [('LAMBDA', ('nat',), ('nat',), []), ('SWAP',), ('EXEC',)])],
+    [(A, _mint(5) + [('LAMBDA', ('pair', _T, ('nat',)), _T, [('CAR',)]), ('SWAP',), ('APPLY',), ('DUP',), ('PUSH', ('nat',), ('nat', 1)), ('EXEC',)])],
+    [(A, _mint(5) + [('LAMBDA', ('pair', _T, ('nat',)), _T, [('CAR',)]), ('SWAP',), ('APPLY',), ('DUP',)])],
+    [(A, [('PUSH', ('nat',), ('nat', 7)), ('LAMBDA', ('pair', ('nat',), ('nat',)), ('nat',), [('CAR',)]), ('SWAP',), ('APPLY',), ('DUP',),
+          ('PUSH', ('nat',), ('nat', 1)), ('EXEC',), ('SWAP',), ('PUSH', ('nat',), ('nat', 2)), ('EXEC',)])],
+    [(A, [('LAMBDA', ('nat',), ('option', _T), [('PUSH', ('string',), ('str', 'a')), ('TICKET',)]), ('DUP',), ('PUSH', ('nat',), ('nat', 4)), ('EXEC',),
+          ('SWAP',), ('PUSH', ('nat',), ('nat', 0)), ('EXEC',)])],
+    [(A, [('LAMBDA', ('nat',), ('nat',), [('DROP',)]), ('PUSH', ('nat',), ('nat', 4)), ('EXEC',)])],
+    [(A, [('LAMBDA', ('nat',), ('nat',), [('PUSH', ('nat',), ('nat', 1))]), ('PUSH', ('nat',), ('nat', 4)), ('EXEC',)])],
+    [(A, _mint(5) + [('LAMBDA', _T, ('option', _T), [('SOME',)]), ('SOME',), ('DUP',)])],
     # sets and map literals (ticket-free), next to tickets
     [(A, _mint(5) + [('EMPTY_SET', ('nat',)), ('PUSH', ('bool',), ('bool', True)), ('PUSH', ('nat',), ('nat', 3)), ('UPDATE',),
                      ('PUSH', ('bool',), ('bool', True)), ('PUSH', ('nat',), ('nat', 1)), ('UPDATE',), ('DUP',), ('PUSH', ('nat',), ('nat', 3)), ('MEM',)])],
